@@ -8,9 +8,10 @@ def _run(ctx):
     lib.tlc(ctx, "mc_rrdpcrash", "MC_RrdpCrash.tla", "MC_RrdpCrash_thorough.cfg" if th else "MC_RrdpCrash.cfg",
             workers=8, timeout=3000)
     if th:
+        lib.tlc(ctx, "mc_rrdpcrash_3obj", "MC_RrdpCrash.tla", "MC_RrdpCrash_thorough3.cfg", workers=8, timeout=3000)
         lib.tlc(ctx, "mc_rrdpcrash_pre_fix", "MC_RrdpCrash.tla", "MC_RrdpCrash_pre_fix.cfg", workers=8, timeout=1500)
         lib.tlc(ctx, "mc_rrdpcrash_no_precond", "MC_RrdpCrash.tla", "MC_RrdpCrash_no_precond.cfg", workers=8, timeout=1500)
-    for v in ("state_first", "in_place"):
+    for v in ("state_first", "in_place", "keeps_lm"):
         bad = lib.tlc(ctx, "mc_rrdpcrash_bad_" + v, "MC_RrdpCrash.tla", "MC_RrdpCrash_bad_%s.cfg" % v, workers=4,
                       timeout=900, expect_ok=False, count=False)
         with open(bad["out"], errors="replace") as f:
@@ -51,7 +52,7 @@ def _run(ctx):
             "version the client is synced to, %d per shape (sequence of model steps and element kinds); per scenario the client "
             "run is killed at every kill point it passes; after each kill the archive is read back (conformance with the crash "
             "states of RrdpCrash.tla, in order) and follow-up runs on copies of the crashed cache (same version, one more "
-            "version, new session%s) must, when they report the repository as updated, leave the archive at the announced "
+            "version, new session, a cache presenting the old notification again with and without ETag%s) must, when they report the repository as updated, leave the archive at the announced "
             "(session, serial) with exactly the server's objects; evaluations = crash states + follow-up runs; distinct by "
             "(shape, kill point name)") % (per_shape, ", a second kill then another run" if th else "")
     return lib.finish(ctx, r, rule, exhaustive=False,
@@ -63,9 +64,10 @@ CHECKS = {
             "technique": "TLA+ model of the snapshot and delta update of one RRDP repository with Kill between (and inside) the "
                          "write steps (RrdpCrash.tla) checked by TLC; the real collector killed at every numbered kill point in a "
                          "forked child against an RRDP server double, crash states validated against the model, follow-up runs judged",
-            "level_text": "TLC: 2 objects x 2 contents, 4 server versions with new sessions, 2 kills, 4 client runs (thorough: 3 objects, "
-                          "3 kills, 5 runs), all interleavings; two seeded faults (state written first, snapshot in place) rejected. "
-                          "Replay: every kill point of sampled runs of every shape, three follow-up histories each.",
+            "level_text": "TLC: 2 objects x 2 contents, 3 server versions with new sessions and stale caches, 2 kills, 4 client runs "
+                          "(thorough: 4 versions; 3 objects, 3 kills, 5 runs), all interleavings; three seeded faults (state written first, "
+                          "snapshot in place, mark keeps Last-Modified) rejected. Replay: every kill point of sampled runs of every shape, "
+                          "five follow-up histories each.",
             "level_note": "TLC also shows that the tree before the dirty mark (and even without hash preconditions) is safe against "
                           "kills alone; the preconditions and the mark matter for dishonest servers (C25). Trusted: the server double, "
                           "the read-back of the archive through RrdpArchive::open/objects, the placement of the kill points (a write "
